@@ -140,7 +140,7 @@ def run(ctx):
         n += 1
         ctx.check(variants == {want}, "builder-error:%s" % stage, "a failure of %s (role %s) is reported as %s, expected %s" % (stage, role, sorted(map(str, variants)), want),
                   loc(bb), sample={"stage": stage, "role": role, "error": want})
-    covered = {role for (stage, role) in emap}
+    covered = {("board" if role in ("board", "derived") else role) for (stage, role) in emap}
     ctx.floor("aspects of a builder state with an attributed failure", len(covered & {"board", "castling", "ep", "half", "full"}), 5)
     # ---- the builder installs each colour's rights slot by slot
     ctx.rule("builder-rights-slotwise")
